@@ -1,24 +1,32 @@
-(* C10/Proofs.v -- with the repaired Clone every reachable store only points into allocations it
-   owns itself, which are never freed while it lives: no read touches released memory, and
-   operations on one store leave every other store and everything it returns unchanged. *)
+(* C10/Proofs.v -- in the Rebuilt design (i2t borrows from the store's own keys, Clone rebuilds it) and in
+   the Owned design (i2t owns its own copy of every term: the current code) every reachable store only
+   refers to allocations it owns itself, which are never freed while it lives: no read touches released
+   memory, and operations on one store leave every other store and everything it returns unchanged.
+   In the Owned design moreover a term cloned out of a store stays readable whatever happens to the store;
+   in the borrowing designs it does not (term_clone_escapes_refuted), and with the derived Clone not even
+   the stores are independent (derived_clone_refuted). *)
 From Sophia.C10 Require Import Model.
 From Coq Require Import Permutation.
 
 
-(* per-store invariant: keys are numbered 0..n-1 in order, i2t is their image *)
-Definition Inv_s (s : store) : Prop :=
+(* per-store invariant: keys are numbered 0..n-1 in order; i2t is aligned with them: entry i holds the term
+   of key i, as its own copy or as a borrow of that very key; in the Owned design every entry is a copy *)
+Definition slot_ok (k : key) (sl : slot) : Prop :=
+  s_term sl = k_term k /\ (s_self sl = true \/ s_ptrs sl = k_owned k).
+Definition Inv_s (m : clone_mode) (s : store) : Prop :=
   map k_index (keys s) = map N.of_nat (seq 0 (length (keys s)))
-  /\ i2t s = map slot_of (keys s).
+  /\ Forall2 slot_ok (keys s) (i2t s)
+  /\ (m = Owned -> Forall (fun sl => s_self sl = true) (i2t s)).
 
 Definition all_owned (l : list (N * store)) : list aid := flat_map (fun p => owned_by (snd p)) l.
 
-Record WF (w : world) : Prop := {
+Record WF (m : clone_mode) (w : world) : Prop := {
   wf_ids : NoDup (map fst (live w));
   wf_nodup : NoDup (all_owned (live w));
   wf_below : forall a, In a (all_owned (live w)) -> a < next w;
   wf_freed_below : forall a, In a (freed w) -> a < next w;
   wf_not_freed : forall a, In a (all_owned (live w)) -> ~ In a (freed w);
-  wf_inv : forall sid s, In (sid, s) (live w) -> Inv_s s
+  wf_inv : forall sid s, In (sid, s) (live w) -> Inv_s m s
 }.
 
 (* ---------- association-list plumbing ---------- *)
@@ -85,6 +93,13 @@ Qed.
 Lemma fresh_length n from : length (fresh n from) = n.
 Proof. revert from; induction n; intros; simpl; auto. Qed.
 
+Lemma fresh_app n m from : fresh (n + m) from = fresh n from ++ fresh m (from + N.of_nat n).
+Proof.
+  revert from; induction n as [|n IH]; intros from; simpl.
+  - f_equal. lia.
+  - f_equal. rewrite IH. f_equal. f_equal. lia.
+Qed.
+
 Lemma NoDup_app_fresh (l : list aid) n from :
   NoDup l -> (forall a, In a l -> a < from) -> NoDup (l ++ fresh n from).
 Proof.
@@ -121,6 +136,29 @@ Proof.
       intros a Ha Hb. apply fresh_In in Ha. apply H5 in Hb. lia.
 Qed.
 
+Lemma clone_slots_spec l : forall from l' nx, clone_slots l from = (l', nx) ->
+  map s_term l' = map s_term l /\ map s_self l' = map s_self l
+  /\ from <= nx
+  /\ (forall a, In a (flat_map slot_owned l') -> from <= a < nx)
+  /\ NoDup (flat_map slot_owned l').
+Proof.
+  induction l as [|sl r IH]; intros from l' nx; simpl.
+  - intros H; inversion H; subst. simpl. repeat split; auto; try lia; try (constructor; fail); try (intros a []).
+  - destruct (s_self sl) eqn:Es.
+    + destruct (clone_slots r (from + N.of_nat (length (s_ptrs sl)))) as [r' nx'] eqn:E.
+      intros H; inversion H; subst. destruct (IH _ _ _ E) as (H1 & H2 & H3 & H4 & H5).
+      cbn [map flat_map s_term s_self]. unfold slot_owned at 1 3. cbn [s_self s_ptrs].
+      repeat split; try congruence; try lia.
+      * apply in_app_iff in H0 as [Ha|Ha]; [apply fresh_In in Ha | apply H4 in Ha]; lia.
+      * apply in_app_iff in H0 as [Ha|Ha]; [apply fresh_In in Ha | apply H4 in Ha]; lia.
+      * apply NoDup_app_disjoint; auto using fresh_NoDup.
+        intros a Ha Hb. apply fresh_In in Ha. apply H4 in Hb. lia.
+    + destruct (clone_slots r from) as [r' nx'] eqn:E.
+      intros H; inversion H; subst. destruct (IH _ _ _ E) as (H1 & H2 & H3 & H4 & H5).
+      cbn [map flat_map]. unfold slot_owned at 1 3. rewrite Es. cbn [app].
+      repeat split; try congruence; auto; apply H4 in H0; lia.
+Qed.
+
 (* ---------- the per-store invariant ---------- *)
 Lemma key_at_nth ks : forall b,
   map k_index ks = map N.of_nat (seq b (length ks)) ->
@@ -147,77 +185,124 @@ Proof.
     + apply nth_error_None in E. lia.
 Qed.
 
-Lemma ensure_inv w s t n qd w' s' : Inv_s s -> ensure w s t n qd = (w', s') -> Inv_s s'.
+Lemma slot_of_ok k : slot_ok k (slot_of k).
+Proof. unfold slot_ok, slot_of. destruct (k_quoted k); simpl; auto. Qed.
+Lemma slot_of_owns_nothing k : slot_owned (slot_of k) = [].
+Proof. unfold slot_owned, slot_of. destruct (k_quoted k); reflexivity. Qed.
+Lemma map_slot_of_ok ks : Forall2 slot_ok ks (map slot_of ks).
+Proof. induction ks; simpl; constructor; auto using slot_of_ok. Qed.
+Lemma map_slot_of_owns_nothing ks : flat_map slot_owned (map slot_of ks) = [].
+Proof. induction ks as [|k r IH]; simpl; auto. rewrite slot_of_owns_nothing, IH. reflexivity. Qed.
+
+Lemma Forall2_app_one {A B} (R : A -> B -> Prop) l1 l2 a b :
+  Forall2 R l1 l2 -> R a b -> Forall2 R (l1 ++ [a]) (l2 ++ [b]).
+Proof. intros H Hab. apply Forall2_app; auto. Qed.
+
+Lemma Forall2_len {A B} (R : A -> B -> Prop) l1 l2 : Forall2 R l1 l2 -> length l1 = length l2.
+Proof. induction 1; simpl; congruence. Qed.
+
+Lemma slots_terms ks sls : Forall2 slot_ok ks sls -> map s_term sls = map k_term ks.
+Proof. induction 1 as [|k sl ks sls [Ht _] _ IH]; simpl; congruence. Qed.
+
+Lemma slots_ok_from_terms ks : forall sls, map s_term sls = map k_term ks ->
+  Forall (fun sl => s_self sl = true) sls -> Forall2 slot_ok ks sls.
 Proof.
-  intros [H1 H2]. unfold ensure. destruct (has_term s t); intros E; inversion E; subst; [split; auto|].
-  split; simpl.
-  - rewrite map_app, app_length, seq_app, map_app, H1. simpl. rewrite H2, map_length. reflexivity.
-  - rewrite map_app, H2. reflexivity.
+  induction ks as [|k ks IH]; intros [|sl sls] Hm Hf; simpl in *; try discriminate; constructor.
+  - inversion Hm. inversion Hf; subst. split; auto.
+  - inversion Hm. inversion Hf; subst. apply IH; auto.
 Qed.
 
-Lemma clone_inv w s w' s' : Inv_s s -> clone_store Rebuilt w s = (w', s') -> Inv_s s'.
+Lemma ensure_inv m w s t n qd w' s' : Inv_s m s -> ensure m w s t n qd = (w', s') -> Inv_s m s'.
 Proof.
-  intros [H1 H2]. unfold clone_store.
-  destruct (clone_keys (keys s) (next w)) as [ks nx] eqn:E. intros H; inversion H; subst; clear H.
+  intros (H1 & H2 & H3). unfold ensure. destruct (has_term s t); intros E; [inversion E; subst; repeat split; auto|].
+  pose proof (Forall2_len _ _ _ H2) as Hl.
+  assert (Ho : forall k0, k_index k0 = N.of_nat (length (i2t s)) ->
+               map k_index (keys s ++ [k0]) = map N.of_nat (seq 0 (length (keys s ++ [k0])))).
+  { intros k0 Hk0. rewrite map_app, app_length, seq_app, map_app, H1. simpl. rewrite Hk0, Hl. reflexivity. }
+  destruct m; inversion E; subst; cbn [keys i2t]; (split; [apply Ho; reflexivity|split]).
+  - apply Forall2_app_one; auto. apply slot_of_ok.
+  - discriminate.
+  - apply Forall2_app_one; auto. apply slot_of_ok.
+  - discriminate.
+  - apply Forall2_app_one; auto. split; simpl; auto.
+  - intros _. apply Forall_app. split; auto.
+Qed.
+
+Lemma clone_inv m w s w' s' : m <> Derived -> Inv_s m s -> clone_store m w s = (w', s') -> Inv_s m s'.
+Proof.
+  intros Hm (H1 & H2 & H3). unfold clone_store.
+  destruct (clone_keys (keys s) (next w)) as [ks nx] eqn:E.
   destruct (clone_keys_spec _ _ _ _ E) as (K1 & K2 & K3 & _).
   assert (Ho : map k_index ks = map N.of_nat (seq 0 (length ks))) by (rewrite K1, K3; exact H1).
-  split; simpl; auto.
-  pose proof (rebuild_ordered ks Ho (length ks) 0) as R. simpl in R. apply R. reflexivity.
+  destruct m; [contradiction| |].
+  - intros H; inversion H; subst; clear H. cbn [keys i2t]. split; [exact Ho|split; [|discriminate]].
+    pose proof (rebuild_ordered ks Ho (length ks) 0) as R. simpl in R. rewrite R by reflexivity.
+    apply map_slot_of_ok.
+  - destruct (clone_slots (i2t s) nx) as [sls nx2] eqn:Es.
+    intros H; inversion H; subst; clear H. cbn [keys i2t].
+    destruct (clone_slots_spec _ _ _ _ Es) as (S1 & S2 & _).
+    assert (Hf : Forall (fun sl => s_self sl = true) sls).
+    { specialize (H3 eq_refl). clear - H3 S2. revert sls S2.
+      induction (i2t s) as [|x r IH]; intros [|y sls] S2; simpl in *; try discriminate; constructor.
+      - inversion S2. inversion H3; subst. congruence.
+      - inversion S2. inversion H3; subst. apply IH; auto. }
+    split; [exact Ho|split; [|intros _; exact Hf]].
+    cbn [keys i2t]. apply slots_ok_from_terms; auto. rewrite S1, K2. apply slots_terms. exact H2.
 Qed.
 
 Lemma aid_list_eqb_refl l : list_eqb N.eqb l l = true.
 Proof. induction l as [|x l IH]; simpl; auto. rewrite N.eqb_refl. exact IH. Qed.
 
-(* what the audit hook reports on a store satisfying the invariant: all true *)
-Lemma audit_from_true ks : map k_index ks = map N.of_nat (seq 0 (length ks)) ->
-  forall m j, (j + m = length ks)%nat ->
-  forallb (fun b => b) (audit_from ks (N.of_nat j) (map slot_of (skipn j ks))) = true.
+Lemma Forall2_nth {A B} (R : A -> B -> Prop) l1 l2 i b :
+  Forall2 R l1 l2 -> nth_error l2 i = Some b -> exists a, nth_error l1 i = Some a /\ R a b.
 Proof.
-  intros H m. induction m as [|m IH]; intros j Hj.
-  - rewrite skipn_all2 by lia. reflexivity.
-  - pose proof (key_at_nth ks 0 H j) as Hk. simpl in Hk.
-    destruct (nth_error ks j) as [k|] eqn:E; [|apply nth_error_None in E; lia].
-    assert (Hs : skipn j ks = k :: skipn (S j) ks).
-    { clear - E. revert j E. induction ks as [|x r IHr]; intros [|j] E; simpl in *; try discriminate.
-      - inversion E; subst. reflexivity.
-      - apply IHr. exact E. }
-    rewrite Hs. cbn [map audit_from forallb]. rewrite Hk by lia.
-    assert (Hb : s_self (slot_of k) || list_eqb N.eqb (s_ptrs (slot_of k)) (k_owned k) = true).
-    { unfold slot_of. destruct (k_quoted k); simpl; auto. apply aid_list_eqb_refl. }
-    rewrite Hb. cbn [andb].
-    replace (N.of_nat j + 1) with (N.of_nat (S j)) by lia. apply IH. lia.
-Qed.
-Theorem audit_all_true s : Inv_s s -> forallb (fun b => b) (audit s) = true.
-Proof.
-  intros [H1 H2]. unfold audit. rewrite H2.
-  exact (audit_from_true (keys s) H1 (length (keys s)) 0 eq_refl).
+  intros H. revert i. induction H as [|x y l1 l2 Hxy _ IH]; intros [|i] Hn; simpl in *; try discriminate.
+  - inversion Hn; subst. eauto.
+  - apply IH. exact Hn.
 Qed.
 
-Lemma inv_nth s i sl : Inv_s s -> nth_error (i2t s) i = Some sl ->
-  exists k, key_at (keys s) (N.of_nat i) = Some k /\ sl = slot_of k /\ In k (keys s).
+(* what the audit hook reports on a store satisfying the invariant: all true *)
+Lemma audit_from_true ks : forall rk rs j, Forall2 slot_ok rk rs ->
+  (forall q k, nth_error rk q = Some k -> key_at ks (N.of_nat (j + q)) = Some k) ->
+  forallb (fun b => b) (audit_from ks (N.of_nat j) rs) = true.
 Proof.
-  intros [H1 H2] Hn. rewrite H2 in Hn.
-  destruct (nth_error (keys s) i) as [k|] eqn:E.
-  - rewrite (map_nth_error slot_of _ _ E) in Hn. inversion Hn; subst.
-    exists k. split; [|split; auto].
-    + pose proof (key_at_nth (keys s) 0 H1 i) as Hk. simpl in Hk. rewrite Hk; auto.
-      apply nth_error_Some. congruence.
-    + eapply nth_error_In; eauto.
-  - apply nth_error_None in E. assert (Hl : (length (map slot_of (keys s)) <= i)%nat) by (rewrite map_length; exact E).
-    apply nth_error_None in Hl. congruence.
+  intros rk rs j H. revert j. induction H as [|k sl rk rs [Ht Hp] _ IH]; intros j Hk; simpl; auto.
+  pose proof (Hk 0%nat k eq_refl) as H0. rewrite Nat.add_0_r in H0. rewrite H0.
+  rewrite Ht, N.eqb_refl. cbn [andb].
+  assert (Hb : s_self sl || list_eqb N.eqb (s_ptrs sl) (k_owned k) = true).
+  { destruct Hp as [Hp | Hp]; rewrite Hp; auto. rewrite aid_list_eqb_refl. apply orb_true_r. }
+  rewrite Hb. cbn [andb]. replace (N.of_nat j + 1) with (N.of_nat (S j)) by lia.
+  apply IH. intros q k' Hq. replace (S j + q)%nat with (j + S q)%nat by lia. apply Hk. exact Hq.
+Qed.
+Theorem audit_all_true m s : Inv_s m s -> forallb (fun b => b) (audit s) = true.
+Proof.
+  intros (H1 & H2 & _). unfold audit.
+  apply (audit_from_true (keys s) (keys s) (i2t s) 0 H2).
+  intros q k Hq. simpl. pose proof (key_at_nth (keys s) 0 H1 q) as Hk. simpl in Hk. rewrite Hk; auto.
+  apply nth_error_Some. congruence.
+Qed.
+
+Lemma inv_nth m s i sl : Inv_s m s -> nth_error (i2t s) i = Some sl ->
+  exists k, key_at (keys s) (N.of_nat i) = Some k /\ slot_ok k sl /\ In k (keys s).
+Proof.
+  intros (H1 & H2 & _) Hn. destruct (Forall2_nth _ _ _ _ _ H2 Hn) as (k & Hk & Hok).
+  exists k. split; [|split; auto].
+  - pose proof (key_at_nth (keys s) 0 H1 i) as Hq. simpl in Hq. rewrite Hq; auto.
+    apply nth_error_Some. congruence.
+  - eapply nth_error_In; eauto.
 Qed.
 
 (* ---------- the global invariant is preserved by every operation ---------- *)
-Lemma wf_init : WF init.
+Lemma wf_init m : WF m init.
 Proof. constructor; simpl; try constructor; intros; try contradiction. Qed.
 
 Lemma In_mid {A} (x y : A) l1 l2 : In x (l1 ++ y :: l2) <-> x = y \/ In x (l1 ++ l2).
 Proof. rewrite !in_app_iff. simpl. intuition. Qed.
 
-Lemma wf_replace w l1 sid s l2 s' n :
-  WF w -> live w = l1 ++ (sid, s) :: l2 ->
-  Permutation (owned_by s') (owned_by s ++ fresh n (next w)) -> Inv_s s' ->
-  WF (mkWorld (next w + N.of_nat n) (freed w) (l1 ++ (sid, s') :: l2)).
+Lemma wf_replace m w l1 sid s l2 s' n :
+  WF m w -> live w = l1 ++ (sid, s) :: l2 ->
+  Permutation (owned_by s') (owned_by s ++ fresh n (next w)) -> Inv_s m s' ->
+  WF m (mkWorld (next w + N.of_nat n) (freed w) (l1 ++ (sid, s') :: l2)).
 Proof.
   intros W Hl Hp Hi. destruct W as [W1 W2 W3 W4 W5 W6]. rewrite Hl in *.
   assert (Hperm : Permutation (all_owned (l1 ++ (sid, s') :: l2))
@@ -242,10 +327,10 @@ Proof.
     + apply (W6 sid0). apply In_mid. right. exact H0.
 Qed.
 
-Lemma wf_add w sid s' nx :
-  WF w -> ~ In sid (map fst (live w)) -> next w <= nx ->
-  (forall a, In a (owned_by s') -> next w <= a < nx) -> NoDup (owned_by s') -> Inv_s s' ->
-  WF (mkWorld nx (freed w) (live w ++ [(sid, s')])).
+Lemma wf_add m w sid s' nx :
+  WF m w -> ~ In sid (map fst (live w)) -> next w <= nx ->
+  (forall a, In a (owned_by s') -> next w <= a < nx) -> NoDup (owned_by s') -> Inv_s m s' ->
+  WF m (mkWorld nx (freed w) (live w ++ [(sid, s')])).
 Proof.
   intros [W1 W2 W3 W4 W5 W6] Hn Hle Hb Hd Hi. constructor; simpl.
   - rewrite map_app. simpl. apply NoDup_app_disjoint; auto.
@@ -266,9 +351,9 @@ Proof. induction l1 as [|x l1 IH]; simpl; auto. intros H. inversion H; auto. Qed
 Lemma NoDup_remove_mid {A} (l1 l2 : list A) x : NoDup (l1 ++ x :: l2) -> NoDup (l1 ++ l2).
 Proof. apply NoDup_remove_1. Qed.
 
-Lemma wf_drop w l1 sid s l2 :
-  WF w -> live w = l1 ++ (sid, s) :: l2 ->
-  WF (mkWorld (next w) (freed w ++ owned_by s) (l1 ++ l2)).
+Lemma wf_drop m w l1 sid s l2 :
+  WF m w -> live w = l1 ++ (sid, s) :: l2 ->
+  WF m (mkWorld (next w) (freed w ++ owned_by s) (l1 ++ l2)).
 Proof.
   intros [W1 W2 W3 W4 W5 W6] Hl. rewrite Hl in *.
   assert (Hperm := all_owned_mid l1 sid s l2).
@@ -304,8 +389,8 @@ Proof.
   apply H2. apply in_map_iff. exists (k, x'). auto.
 Qed.
 
-Lemma wf_swap w a b :
-  WF w -> WF (mkWorld (next w) (freed w) (map (fun p => (swap_id a b (fst p), snd p)) (live w))).
+Lemma wf_swap m w a b :
+  WF m w -> WF m (mkWorld (next w) (freed w) (map (fun p => (swap_id a b (fst p), snd p)) (live w))).
 Proof.
   intros [W1 W2 W3 W4 W5 W6].
   constructor; simpl; try rewrite all_owned_swap; auto.
@@ -313,53 +398,80 @@ Proof.
   - intros sid s H. apply in_map_iff in H as [[k x] [E H]]. inversion E; subst. eapply W6; eauto.
 Qed.
 
-Lemma owned_by_app ks k : flat_map k_owned (ks ++ [k]) = flat_map k_owned ks ++ k_owned k.
+Lemma perm_insert (K S a b : list aid) : Permutation ((K ++ a) ++ (S ++ b)) ((K ++ S) ++ (a ++ b)).
+Proof.
+  rewrite <- !app_assoc. apply Permutation_app_head. rewrite !app_assoc.
+  apply Permutation_app_tail. apply Permutation_app_comm.
+Qed.
+
+Lemma flat_map_app_one {A B} (f : A -> list B) l x : flat_map f (l ++ [x]) = flat_map f l ++ f x.
 Proof. rewrite flat_map_app. simpl. rewrite app_nil_r. reflexivity. Qed.
 
-Theorem step_wf w o : WF w -> WF (step Rebuilt w o).
+Theorem step_wf m w o : m <> Derived -> WF m w -> WF m (step m w o).
 Proof.
-  intros W. destruct o as [sid|sid t n qd|src dst|sid|a b|sid]; simpl.
+  intros Hm W. destruct o as [sid|sid t n qd|src dst|sid|a b|sid]; cbn [step].
   - (* New *)
     destruct (find_store (live w) sid) eqn:E; auto.
     destruct (find_none _ _ E) as [Hs Hn]. rewrite Hs.
-    apply (wf_add w sid empty_store (next w)); auto; try lia; simpl; try (constructor; fail);
-      try (intros ? []); try (split; reflexivity).
+    apply (wf_add m w sid empty_store (next w)); auto; try lia; simpl; try (constructor; fail);
+      try (intros ? []).
+    split; [reflexivity|split; [constructor|intros _; constructor]].
   - (* Insert *)
     destruct (find_store (live w) sid) as [s|] eqn:E; auto.
     destruct (find_split _ _ _ E) as (l1 & l2 & Hl & Hset & _).
-    destruct (ensure w s t (S n) qd) as [w' s'] eqn:Ee.
-    pose proof (wf_inv w W sid s (find_In _ _ _ E)) as Hi.
-    pose proof (ensure_inv _ _ _ _ _ _ _ Hi Ee) as Hi'.
+    remember (S n) as nn eqn:Hnn. clear Hnn n.
+    destruct (ensure m w s t nn qd) as [w' s'] eqn:Ee.
+    pose proof (wf_inv m w W sid s (find_In _ _ _ E)) as Hi.
+    pose proof (ensure_inv _ _ _ _ _ _ _ _ Hi Ee) as Hi'.
     unfold ensure in Ee. destruct (has_term s t).
     + injection Ee as E1 E2. subst w' s'. rewrite Hset, <- Hl. destruct w; exact W.
-    + injection Ee as E1 E2. subst w' s'. simpl. rewrite Hset.
-      apply (wf_replace w l1 sid s l2 _ (S n)); auto.
-      unfold owned_by. simpl. rewrite owned_by_app. simpl. apply Permutation_refl.
+    + destruct m; [contradiction| |]; injection Ee as E1 E2; subst w' s'; cbn [next freed live]; rewrite Hset.
+      * apply (wf_replace Rebuilt w l1 sid s l2 _ nn); auto.
+        unfold owned_by. cbn [keys i2t]. rewrite !flat_map_app_one. cbn [k_owned].
+        rewrite slot_of_owns_nothing, app_nil_r.
+        rewrite <- !app_assoc. apply Permutation_app_head. apply Permutation_app_comm.
+      * replace (next w + N.of_nat nn + N.of_nat nn) with (next w + N.of_nat (nn + nn)) by lia.
+        apply (wf_replace Owned w l1 sid s l2 _ (nn + nn)); auto.
+        unfold owned_by. cbn [keys i2t]. rewrite !flat_map_app_one. cbn [k_owned].
+        unfold slot_owned at 2. cbn [s_self s_ptrs].
+        rewrite fresh_app. apply perm_insert.
   - (* Clone *)
     destruct (find_store (live w) src) as [s|] eqn:Es; auto.
     destruct (find_store (live w) dst) eqn:Ed; auto.
-    destruct (clone_store Rebuilt w s) as [w' s'] eqn:Ec.
-    pose proof (wf_inv w W src s (find_In _ _ _ Es)) as Hi.
-    pose proof (clone_inv _ _ _ _ Hi Ec) as Hi'.
+    destruct (clone_store m w s) as [w' s'] eqn:Ec.
+    pose proof (wf_inv m w W src s (find_In _ _ _ Es)) as Hi.
+    pose proof (clone_inv _ _ _ _ _ Hm Hi Ec) as Hi'.
     unfold clone_store in Ec. destruct (clone_keys (keys s) (next w)) as [ks nx] eqn:Ek.
-    inversion Ec; subst. simpl.
     destruct (clone_keys_spec _ _ _ _ Ek) as (_ & _ & _ & K4 & K5 & K6).
-    destruct (find_none _ _ Ed) as [Hs Hn]. rewrite Hs.
-    apply (wf_add w dst _ nx); auto.
+    destruct (find_none _ _ Ed) as [Hs Hn].
+    destruct m; [contradiction| |].
+    + inversion Ec; subst. cbn [next freed live]. rewrite Hs.
+      destruct Hi' as (Ho & Hi2 & Hi3). cbn [keys i2t] in Ho.
+      assert (R : rebuild ks (length ks) 0 = map slot_of ks).
+      { pose proof (rebuild_ordered ks Ho (length ks) 0) as R. simpl in R. apply R. reflexivity. }
+      apply (wf_add Rebuilt w dst _ nx); auto;
+        try (unfold owned_by; cbn [keys i2t]; rewrite R, map_slot_of_owns_nothing, app_nil_r; auto; fail).
+      split; [exact Ho|split; auto].
+    + destruct (clone_slots (i2t s) nx) as [sls nx2] eqn:Esl.
+      destruct (clone_slots_spec _ _ _ _ Esl) as (_ & _ & S3 & S4 & S5).
+      inversion Ec; subst. cbn [next freed live]. rewrite Hs.
+      apply (wf_add Owned w dst _ nx2); auto; try lia; unfold owned_by; cbn [keys i2t].
+      * intros a Ha. apply in_app_iff in Ha as [Ha|Ha]; [apply K5 in Ha|apply S4 in Ha]; lia.
+      * apply NoDup_app_disjoint; auto. intros a Ha Hb. apply K5 in Ha. apply S4 in Hb. lia.
   - (* Drop *)
     destruct (find_store (live w) sid) as [s|] eqn:E; auto.
     destruct (find_split _ _ _ E) as (l1 & l2 & Hl & _ & Hdel). rewrite Hdel.
-    apply (wf_drop w l1 sid s l2); auto.
+    apply (wf_drop m w l1 sid s l2); auto.
   - (* Swap *)
     destruct (find_store (live w) a); auto. destruct (find_store (live w) b); auto.
-    apply (wf_swap w a b W).
+    apply (wf_swap m w a b W).
   - exact W.
 Qed.
 
-Theorem reachable_wf ops : WF (run Rebuilt ops).
+Theorem reachable_wf m ops : m <> Derived -> WF m (run m ops).
 Proof.
-  unfold run. assert (H : forall w, WF w -> WF (fold_left (step Rebuilt) ops w)).
-  { induction ops as [|o ops IH]; simpl; auto. intros w W. apply IH. apply step_wf. exact W. }
+  intros Hm. unfold run. assert (H : forall w, WF m w -> WF m (fold_left (step m) ops w)).
+  { induction ops as [|o ops IH]; simpl; auto. intros w W. apply IH. apply step_wf; auto. }
   apply H. apply wf_init.
 Qed.
 
@@ -367,28 +479,37 @@ Qed.
 Lemma owned_in_all l sid s a : In (sid, s) l -> In a (owned_by s) -> In a (all_owned l).
 Proof. intros H Ha. unfold all_owned. apply in_flat_map. exists (sid, s). auto. Qed.
 
+Lemma slot_ptrs_owned m s i sl a : Inv_s m s -> nth_error (i2t s) i = Some sl -> In a (s_ptrs sl) -> In a (owned_by s).
+Proof.
+  intros Hi Hn Ha. destruct (inv_nth m s i sl Hi Hn) as (k & _ & [_ Hp] & Hin).
+  unfold owned_by. apply in_app_iff. destruct Hp as [Hs|Hp].
+  - right. apply in_flat_map. exists sl. split; [eapply nth_error_In; eauto|].
+    unfold slot_owned. rewrite Hs. exact Ha.
+  - left. apply in_flat_map. exists k. split; auto. rewrite <- Hp. exact Ha.
+Qed.
+
 (* no read of a live store ever touches released memory, or memory of another store *)
-Theorem read_safe w sid s i : WF w -> In (sid, s) (live w) ->
+Theorem read_safe m w sid s i : WF m w -> In (sid, s) (live w) ->
   read w s i = ReadOutOfRange \/ exists t, read w s i = ReadOk t.
 Proof.
   intros W Hs. unfold read. destruct (nth_error (i2t s) i) as [sl|] eqn:E; auto. right.
-  destruct (inv_nth s i sl (wf_inv w W sid s Hs) E) as (k & Hk & -> & Hin).
-  unfold slot_of in *. destruct (k_quoted k); simpl; [eauto|].
-  assert (Hnf : existsb (fun a => aid_in a (freed w)) (k_owned k) = false).
+  pose proof (wf_inv m w W sid s Hs) as Hi.
+  assert (Hnf : existsb (fun a => aid_in a (freed w)) (s_ptrs sl) = false).
   { apply not_true_is_false. intros H. apply existsb_exists in H as [a [Ha Hf]].
     unfold aid_in in Hf. apply existsb_exists in Hf as [a' [Hf E']]. apply N.eqb_eq in E'. subst a'.
-    apply (wf_not_freed w W a); auto. eapply owned_in_all; eauto.
-    unfold owned_by. apply in_flat_map. exists k. auto. }
-  rewrite Hnf, Hk. simpl. rewrite aid_list_eqb_refl. eauto.
+    apply (wf_not_freed m w W a); auto. eapply owned_in_all; eauto. eapply slot_ptrs_owned; eauto. }
+  rewrite Hnf. destruct (inv_nth m s i sl Hi E) as (k & Hk & [_ Hp] & _).
+  destruct (s_self sl) eqn:Ess; [eauto|].
+  destruct Hp as [Hp|Hp]; [discriminate|]. rewrite Hk, Hp, aid_list_eqb_refl. eauto.
 Qed.
 
-Theorem reachable_read_safe ops sid s i : In (sid, s) (live (run Rebuilt ops)) ->
-  read (run Rebuilt ops) s i = ReadOutOfRange \/ exists t, read (run Rebuilt ops) s i = ReadOk t.
-Proof. apply read_safe. apply reachable_wf. Qed.
+Theorem reachable_read_safe m ops sid s i : m <> Derived -> In (sid, s) (live (run m ops)) ->
+  read (run m ops) s i = ReadOutOfRange \/ exists t, read (run m ops) s i = ReadOk t.
+Proof. intros Hm. apply (read_safe m). apply reachable_wf. exact Hm. Qed.
 
-Theorem reachable_audit ops sid s : In (sid, s) (live (run Rebuilt ops)) ->
+Theorem reachable_audit m ops sid s : m <> Derived -> In (sid, s) (live (run m ops)) ->
   forallb (fun b => b) (audit s) = true.
-Proof. intros H. apply audit_all_true. exact (wf_inv _ (reachable_wf ops) sid s H). Qed.
+Proof. intros Hm H. apply (audit_all_true m). exact (wf_inv _ _ (reachable_wf m ops Hm) sid s H). Qed.
 
 (* independence: an operation whose subject is another store leaves this store, and therefore
    every value it returns, unchanged (cloning FROM a store does not change it either) *)
@@ -425,19 +546,28 @@ Proof.
   - destruct (N.eqb_spec k sid); auto.
 Qed.
 
+Lemma ensure_live m w s t n qd w' s' : ensure m w s t n qd = (w', s') -> live w' = live w.
+Proof. unfold ensure. destruct (has_term s t); [|destruct m]; intros E; inversion E; subst; reflexivity. Qed.
+Lemma clone_live m w s w' s' : clone_store m w s = (w', s') -> live w' = live w.
+Proof.
+  unfold clone_store. destruct (clone_keys (keys s) (next w)) as [ks nx]. destruct m.
+  - intros E; inversion E; reflexivity.
+  - intros E; inversion E; reflexivity.
+  - destruct (clone_slots (i2t s) nx). intros E; inversion E; reflexivity.
+Qed.
+
 Theorem frame m w o sid : touches o sid = false ->
   find_store (live (step m w o)) sid = find_store (live w) sid.
 Proof.
   destruct o as [x|x t n qd|src dst|x|a b|x]; simpl; intros H.
   - apply N.eqb_neq in H. destruct (find_store (live w) x); auto. simpl. apply find_set_other; auto.
   - apply N.eqb_neq in H. destruct (find_store (live w) x) as [s|]; auto.
-    destruct (ensure w s t (S n) qd) as [w' s'] eqn:E. simpl.
-    rewrite find_set_other by auto. unfold ensure in E. destruct (has_term s t); inversion E; subst; reflexivity.
+    destruct (ensure m w s t (S n) qd) as [w' s'] eqn:E. simpl.
+    rewrite find_set_other by auto. rewrite (ensure_live _ _ _ _ _ _ _ _ E). reflexivity.
   - apply N.eqb_neq in H. destruct (find_store (live w) src) as [s|]; auto.
     destruct (find_store (live w) dst); auto.
     destruct (clone_store m w s) as [w' s'] eqn:E. simpl.
-    rewrite find_set_other by auto. unfold clone_store in E.
-    destruct (clone_keys (keys s) (next w)); inversion E; subst; reflexivity.
+    rewrite find_set_other by auto. rewrite (clone_live _ _ _ _ _ E). reflexivity.
   - apply N.eqb_neq in H. destruct (find_store (live w) x); auto. simpl. apply find_del_other; auto.
   - apply orb_false_iff in H as [H1 H2]. apply N.eqb_neq in H1, H2.
     destruct (find_store (live w) a); auto. destruct (find_store (live w) b); auto.
@@ -445,20 +575,19 @@ Proof.
   - reflexivity.
 Qed.
 
-Theorem independent_reads w o sid s i : WF w -> touches o sid = false ->
+Theorem independent_reads m w o sid s i : m <> Derived -> WF m w -> touches o sid = false ->
   find_store (live w) sid = Some s ->
-  find_store (live (step Rebuilt w o)) sid = Some s
-  /\ read (step Rebuilt w o) s i = read w s i.
+  find_store (live (step m w o)) sid = Some s
+  /\ read (step m w o) s i = read w s i.
 Proof.
-  intros W Ht Hf. pose proof (frame Rebuilt w o sid Ht) as Hfr. rewrite Hf in Hfr. split; auto.
-  pose proof (step_wf w o W) as W'.
-  pose proof (read_safe w sid s i W (find_In _ _ _ Hf)) as R1.
-  pose proof (read_safe _ sid s i W' (find_In _ _ _ Hfr)) as R2.
+  intros Hm W Ht Hf. pose proof (frame m w o sid Ht) as Hfr. rewrite Hf in Hfr. split; auto.
+  pose proof (step_wf m w o Hm W) as W'.
+  pose proof (read_safe m w sid s i W (find_In _ _ _ Hf)) as R1.
+  pose proof (read_safe m _ sid s i W' (find_In _ _ _ Hfr)) as R2.
   unfold read in *. destruct (nth_error (i2t s) i) as [sl|] eqn:En; auto.
-  destruct (s_self sl); auto.
   destruct (existsb (fun a => aid_in a (freed w)) (s_ptrs sl)) eqn:X1;
     [destruct R1 as [R1|[t R1]]; discriminate|].
-  destruct (existsb (fun a => aid_in a (freed (step Rebuilt w o))) (s_ptrs sl)) eqn:X2;
+  destruct (existsb (fun a => aid_in a (freed (step m w o))) (s_ptrs sl)) eqn:X2;
     [destruct R2 as [R2|[t R2]]; discriminate|].
   reflexivity.
 Qed.
@@ -474,3 +603,265 @@ Example rebuilt_clone_ok :
   exists s, find_store (live w) 1 = Some s /\ read w s 0 = ReadOk 7 /\ read w s 2 = ReadOk 9
             /\ audit s = [true; true; true].
 Proof. eexists. vm_compute. repeat split; reflexivity. Qed.
+Example owned_clone_ok :
+  let w := run Owned [New 0; Insert 0 7 0 false; Insert 0 8 2 true; Clone 0 1; Drop 0; Insert 1 9 1 false; Swap 1 2; Grow 1] in
+  exists s, find_store (live w) 1 = Some s /\ read w s 0 = ReadOk 7 /\ read w s 2 = ReadOk 9
+            /\ audit s = [true; true; true] /\ length (owned_by s) = 12%nat /\ length (freed w) = 8%nat.
+Proof. eexists. vm_compute. repeat split; reflexivity. Qed.
+
+(* ================= compound operations of the widened harness ================= *)
+Lemma run_app m a b : run m (a ++ b) = fold_left (step m) b (run m a).
+Proof. unfold run. apply fold_left_app. Qed.
+
+Lemma find_set_same l x s' : find_store (set_store l x s') x = Some s'.
+Proof.
+  induction l as [|[k v] r IH]; simpl.
+  - rewrite N.eqb_refl. reflexivity.
+  - destruct (N.eqb_spec k x) as [->|Hk]; simpl.
+    + rewrite N.eqb_refl. reflexivity.
+    + destruct (N.eqb_spec k x); [contradiction|]. exact IH.
+Qed.
+
+Lemma find_del_same l x : NoDup (map fst l) -> find_store (del_store l x) x = None.
+Proof.
+  induction l as [|[k v] r IH]; simpl; auto. intros Hn. inversion Hn; subst.
+  destruct (N.eqb_spec k x) as [->|Hk]; simpl.
+  - destruct (find_store r x) eqn:E; auto. exfalso. apply H1. apply find_In in E.
+    apply in_map_iff. exists (x, s). auto.
+  - destruct (N.eqb_spec k x); [contradiction|]. auto.
+Qed.
+
+Lemma find_swap l a b k :
+  find_store (map (fun p => (if N.eqb (fst p) a then b else if N.eqb (fst p) b then a else fst p, snd p)) l)
+             (swap_id a b k) = find_store l k.
+Proof.
+  induction l as [|[k0 v] r IH]; simpl; auto.
+  change (if N.eqb k0 a then b else if N.eqb k0 b then a else k0) with (swap_id a b k0).
+  destruct (N.eqb_spec (swap_id a b k0) (swap_id a b k)) as [E|E].
+  - apply swap_id_inj in E. subst. rewrite N.eqb_refl. reflexivity.
+  - destruct (N.eqb_spec k0 k) as [->|Hk]; [contradiction|]. exact IH.
+Qed.
+
+(* what a store returns by index is the list of the terms of its keys *)
+Lemma content_terms m s : Inv_s m s -> content s = terms_of s.
+Proof. intros (_ & H2 & _). unfold content, terms_of. apply slots_terms. exact H2. Qed.
+
+(* a clone returns, index by index, what its original returns at the time of cloning *)
+Theorem clone_same_content m w s w' s' : m <> Derived -> Inv_s m s -> clone_store m w s = (w', s') ->
+  content s' = content s.
+Proof.
+  intros Hm Hi Hc. pose proof (clone_inv _ _ _ _ _ Hm Hi Hc) as Hi'.
+  rewrite (content_terms _ _ Hi), (content_terms _ _ Hi'). unfold terms_of.
+  unfold clone_store in Hc. destruct (clone_keys (keys s) (next w)) as [ks nx] eqn:E.
+  destruct (clone_keys_spec _ _ _ _ E) as (_ & K2 & _).
+  destruct m; [contradiction| |].
+  - inversion Hc; subst. exact K2.
+  - destruct (clone_slots (i2t s) nx). inversion Hc; subst. exact K2.
+Qed.
+
+Theorem clone_step_content m w src dst s : m <> Derived -> WF m w ->
+  find_store (live w) src = Some s -> find_store (live w) dst = None ->
+  exists s', find_store (live (step m w (Clone src dst))) dst = Some s'
+             /\ content s' = content s
+             /\ find_store (live (step m w (Clone src dst))) src = Some s.
+Proof.
+  intros Hm W Hs Hd. assert (Hne : dst <> src) by (intros ->; congruence).
+  pose proof (frame m w (Clone src dst) src) as Hf. simpl in Hf.
+  rewrite (proj2 (N.eqb_neq dst src) Hne) in Hf. specialize (Hf eq_refl). rewrite Hs in Hf.
+  simpl in *. rewrite Hs, Hd in *.
+  destruct (clone_store m w s) as [w' s'] eqn:Ec. simpl in *.
+  exists s'. split; [apply find_set_same|]. split; auto.
+  eapply clone_same_content; eauto. exact (wf_inv m w W src s (find_In _ _ _ Hs)).
+Qed.
+
+(* Clone::clone_from: the target returns what the source returns, the source is unchanged *)
+Theorem clone_from_content m w src dst s sd : m <> Derived -> WF m w -> src <> dst ->
+  find_store (live w) src = Some s -> find_store (live w) dst = Some sd ->
+  let w' := fold_left (step m) (clone_from_ops src dst) w in
+  exists s', find_store (live w') dst = Some s' /\ content s' = content s
+             /\ find_store (live w') src = Some s.
+Proof.
+  intros Hm W Hne Hs Hd. cbn [clone_from_ops fold_left].
+  set (w1 := step m w (Drop dst)).
+  assert (W1 : WF m w1) by (apply step_wf; auto).
+  assert (Hs1 : find_store (live w1) src = Some s).
+  { unfold w1. simpl. rewrite Hd. simpl. rewrite find_del_other; auto. }
+  assert (Hd1 : find_store (live w1) dst = None).
+  { unfold w1. simpl. rewrite Hd. simpl. apply find_del_same. apply (wf_ids m w W). }
+  exact (clone_step_content m w1 src dst s Hm W1 Hs1 Hd1).
+Qed.
+
+(* std::mem::take / mem::replace: the content moves, an empty store stays *)
+Theorem take_spec m w src dst s :
+  find_store (live w) src = Some s -> find_store (live w) dst = None ->
+  let w' := fold_left (step m) (take_ops src dst) w in
+  find_store (live w') dst = Some s /\ find_store (live w') src = Some empty_store
+  /\ next w' = next w /\ freed w' = freed w.
+Proof.
+  intros Hs Hd. assert (Hne : dst <> src) by (intros ->; congruence).
+  cbn [take_ops fold_left].
+  set (w1 := mkWorld (next w) (freed w) (set_store (live w) dst empty_store)).
+  assert (E1 : step m w (New dst) = w1) by (simpl; rewrite Hd; reflexivity).
+  rewrite E1.
+  assert (H1 : find_store (live w1) dst = Some empty_store) by (apply find_set_same).
+  assert (H2 : find_store (live w1) src = Some s) by (unfold w1; simpl; rewrite find_set_other; auto).
+  assert (E2 : step m w1 (Swap src dst) = mkWorld (next w1) (freed w1)
+     (map (fun p => (if N.eqb (fst p) src then dst else if N.eqb (fst p) dst then src else fst p, snd p)) (live w1)))
+    by (unfold step; rewrite H2, H1; reflexivity).
+  rewrite E2. cbn [live next freed].
+  pose proof (find_swap (live w1) src dst src) as Fa. pose proof (find_swap (live w1) src dst dst) as Fb.
+  unfold swap_id in Fa, Fb. rewrite N.eqb_refl in Fa.
+  rewrite (proj2 (N.eqb_neq dst src) Hne), N.eqb_refl in Fb.
+  rewrite Fa, Fb, H1, H2. repeat split; reflexivity.
+Qed.
+
+(* the bulk constructors (from_triple_source, from_quad_source, collect_*, insert_all into a new store):
+   the fold of the single inserts from the empty store; the new store returns the terms of the sequence,
+   first occurrences only, in order *)
+Lemma has_term_terms s t : has_term s t = existsb (fun x => N.eqb x t) (terms_of s).
+Proof. unfold has_term, terms_of. induction (keys s) as [|k r IH]; simpl; auto. rewrite IH. reflexivity. Qed.
+
+Lemma inserts_terms m d ts : forall w s, find_store (live w) d = Some s ->
+  exists s', find_store (live (fold_left (step m) (map (ins_of d) ts) w)) d = Some s'
+             /\ terms_of s' = add_new (terms_of s) (map (fun x => fst (fst x)) ts).
+Proof.
+  induction ts as [|x ts IH]; intros w s Hs; cbn [map fold_left add_new].
+  - exists s. auto.
+  - unfold ins_of at 2. unfold step at 2. rewrite Hs.
+    destruct (ensure m w s (fst (fst x)) (S (snd (fst x))) (snd x)) as [w' s'] eqn:Ee.
+    assert (Ht : terms_of s' = if existsb (fun y => N.eqb y (fst (fst x))) (terms_of s) then terms_of s
+                               else terms_of s ++ [fst (fst x)]).
+    { unfold ensure in Ee. rewrite has_term_terms in Ee.
+      destruct (existsb (fun y => N.eqb y (fst (fst x))) (terms_of s)); [inversion Ee; subst; auto|].
+      destruct m; inversion Ee; subst; unfold terms_of; cbn [keys]; rewrite map_app; reflexivity. }
+    rewrite <- Ht. apply IH. cbn [live]. apply find_set_same.
+Qed.
+
+Theorem collect_content m ops d ts : m <> Derived -> find_store (live (run m ops)) d = None ->
+  exists s, find_store (live (run m (ops ++ collect_ops d ts))) d = Some s
+            /\ content s = add_new [] (map (fun x => fst (fst x)) ts).
+Proof.
+  intros Hm Hd. pose proof (reachable_wf m (ops ++ collect_ops d ts) Hm) as W.
+  rewrite run_app in *. unfold collect_ops in *. cbn [fold_left] in *.
+  set (w0 := run m ops) in *.
+  assert (H1 : find_store (live (step m w0 (New d))) d = Some empty_store).
+  { simpl. rewrite Hd. simpl. apply find_set_same. }
+  destruct (inserts_terms m d ts _ _ H1) as (s' & Hf & Ht).
+  exists s'. split; auto.
+  rewrite (content_terms m s' (wf_inv _ _ W d s' (find_In _ _ _ Hf))). exact Ht.
+Qed.
+
+Example collect_example :
+  let w := run Owned (collect_ops 3 [(7, 0%nat, false); (8, 2%nat, true); (7, 0%nat, false); (9, 1%nat, false)]) in
+  exists s, find_store (live w) 3 = Some s /\ content s = [7; 8; 9] /\ audit s = [true; true; true].
+Proof. eexists. vm_compute. repeat split; reflexivity. Qed.
+Example compound_example :
+  let w := run Owned (concat [[New 0; Insert 0 7 0 false; Insert 0 8 2 true]; clone_via_ops 0 1 [100; 101];
+                              clone_chain_ops 1 102 2; take_ops 0 3; overwrite_ops 1; [Insert 0 9 0 false];
+                              clone_from_ops 2 1; [Drop 2; Drop 3]]) in
+  map (fun p => (fst p, content (snd p))) (live w) = [(0, [9]); (1, [7; 8])]
+  /\ forallb (fun p => forallb (fun b => b) (audit (snd p))) (live w) = true.
+Proof. vm_compute. split; reflexivity. Qed.
+
+(* ================= terms cloned out of a store ================= *)
+(* an allocation that belongs to the caller: below `next`, owned by no live store, not freed *)
+Definition outside (w : world) (a : aid) : Prop :=
+  a < next w /\ ~ In a (all_owned (live w)) /\ ~ In a (freed w).
+
+Lemma all_owned_swap' a b l :
+  all_owned (map (fun p => (if N.eqb (fst p) a then b else if N.eqb (fst p) b then a else fst p, snd p)) l) = all_owned l.
+Proof. exact (all_owned_swap a b l). Qed.
+
+(* whatever is done to the stores afterwards, such an allocation stays the caller's *)
+Lemma outside_step w o a : outside w a -> outside (step Owned w o) a.
+Proof.
+  intros (Hb & Ho & Hf). unfold outside. destruct o as [sid|sid t n qd|src dst|sid|x y|sid]; cbn [step].
+  - destruct (find_store (live w) sid) eqn:E; [repeat split; auto|].
+    destruct (find_none _ _ E) as [Hs _]. rewrite Hs. repeat split; auto. cbn [live].
+    rewrite all_owned_app. simpl. rewrite app_nil_r. exact Ho.
+  - destruct (find_store (live w) sid) as [s|] eqn:E; [|repeat split; auto].
+    destruct (find_split _ _ _ E) as (l1 & l2 & Hl & Hset & _).
+    remember (S n) as nn eqn:Hnn. clear Hnn n.
+    assert (Hs : ~ In a (owned_by s)) by (intros H; apply Ho; eapply owned_in_all; eauto using find_In).
+    assert (Hr : ~ In a (all_owned (l1 ++ l2))).
+    { intros H. apply Ho. rewrite Hl. apply (Permutation_in _ (Permutation_sym (all_owned_mid l1 sid s l2))).
+      apply in_app_iff. auto. }
+    unfold ensure. destruct (has_term s t); cbn [next freed live]; rewrite Hset.
+    + cbn [next freed live]. rewrite <- Hl. repeat split; auto.
+    + cbn [next freed live]. repeat split; auto; try lia. intros H.
+      apply (Permutation_in _ (all_owned_mid l1 sid _ l2)) in H. apply in_app_iff in H as [H|H]; auto.
+      unfold owned_by in H, Hs. cbn [keys i2t] in H. rewrite !flat_map_app_one in H. cbn [k_owned] in H.
+      unfold slot_owned at 2 in H. cbn [s_self s_ptrs] in H.
+      rewrite !in_app_iff in H. rewrite in_app_iff in Hs.
+      destruct H as [[H|H]|[H|H]]; try (apply fresh_In in H; lia); apply Hs; auto.
+  - destruct (find_store (live w) src) as [s|] eqn:Es; [|repeat split; auto].
+    destruct (find_store (live w) dst) eqn:Ed; [repeat split; auto|].
+    unfold clone_store. destruct (clone_keys (keys s) (next w)) as [ks nx] eqn:Ek.
+    destruct (clone_slots (i2t s) nx) as [sls nx2] eqn:Esl. cbn [next freed live].
+    destruct (clone_keys_spec _ _ _ _ Ek) as (_ & _ & _ & K4 & K5 & _).
+    destruct (clone_slots_spec _ _ _ _ Esl) as (_ & _ & S3 & S4 & _).
+    destruct (find_none _ _ Ed) as [Hs _]. rewrite Hs. repeat split; auto; try lia.
+    rewrite all_owned_app. simpl. rewrite app_nil_r. intros H. apply in_app_iff in H as [H|H]; auto.
+    unfold owned_by in H. cbn [keys i2t] in H. apply in_app_iff in H as [H|H]; [apply K5 in H|apply S4 in H]; lia.
+  - destruct (find_store (live w) sid) as [s|] eqn:E; [|repeat split; auto].
+    destruct (find_split _ _ _ E) as (l1 & l2 & Hl & _ & Hdel). rewrite Hdel. cbn [next freed live].
+    repeat split; auto.
+    + intros H. apply Ho. rewrite Hl. apply (Permutation_in _ (Permutation_sym (all_owned_mid l1 sid s l2))).
+      apply in_app_iff. auto.
+    + intros H. apply in_app_iff in H as [H|H]; auto. apply Ho. eapply owned_in_all; eauto using find_In.
+  - destruct (find_store (live w) x); [|repeat split; auto]. destruct (find_store (live w) y); [|repeat split; auto].
+    cbn [next freed live]. rewrite all_owned_swap'. repeat split; auto.
+  - repeat split; auto.
+Qed.
+
+Lemma outside_steps ops : forall w a, outside w a -> outside (fold_left (step Owned) ops w) a.
+Proof. induction ops as [|o ops IH]; simpl; auto. intros w a H. apply IH. apply outside_step. exact H. Qed.
+
+(* cloning a term out of a store disturbs nothing: the world stays well-formed, stores and freed set unchanged *)
+Lemma clone_term_wf m w sl : WF m w -> WF m (fst (clone_term w sl)) /\ live (fst (clone_term w sl)) = live w
+                                      /\ freed (fst (clone_term w sl)) = freed w.
+Proof.
+  intros W. unfold clone_term. destruct (s_self sl); simpl; auto.
+  split; auto. destruct W as [W1 W2 W3 W4 W5 W6]. constructor; simpl; auto.
+  - intros a Ha. apply W3 in Ha. lia.
+  - intros a Ha. apply W4 in Ha. lia.
+Qed.
+
+(* Owned design: a term cloned (Clone::clone) out of any live store after any history stays readable whatever
+   is done afterwards -- to that store (drop included) or to any other *)
+Theorem escaped_clone_safe ops sid s i sl ops' :
+  In (sid, s) (live (run Owned ops)) -> nth_error (i2t s) i = Some sl ->
+  read_term (fold_left (step Owned) ops' (fst (clone_term (run Owned ops) sl))) (snd (clone_term (run Owned ops) sl))
+  = ReadOk (s_term sl).
+Proof.
+  intros Hs Hn. assert (Hm : Owned <> Derived) by discriminate.
+  pose proof (reachable_wf Owned ops Hm) as W. set (w := run Owned ops) in *.
+  destruct (wf_inv _ _ W sid s Hs) as (_ & _ & H3). specialize (H3 eq_refl).
+  assert (Hself : s_self sl = true).
+  { rewrite Forall_forall in H3. apply H3. eapply nth_error_In; eauto. }
+  unfold clone_term. rewrite Hself. cbn [fst snd]. unfold read_term. cbn [s_ptrs s_term].
+  set (n := length (s_ptrs sl)). set (w1 := mkWorld (next w + N.of_nat n) (freed w) (live w)).
+  assert (Hout : forall a, In a (fresh n (next w)) -> outside w1 a).
+  { intros a Ha. apply fresh_In in Ha. unfold outside, w1. cbn [next freed live]. repeat split; try lia.
+    - intros H. apply (wf_below _ _ W) in H. lia.
+    - intros H. apply (wf_freed_below _ _ W) in H. lia. }
+  assert (Hnf : existsb (fun a => aid_in a (freed (fold_left (step Owned) ops' w1))) (fresh n (next w)) = false).
+  { apply not_true_is_false. intros H. apply existsb_exists in H as [a [Ha Hf]].
+    unfold aid_in in Hf. apply existsb_exists in Hf as [a' [Hf E']]. apply N.eqb_eq in E'. subst a'.
+    destruct (outside_steps ops' w1 a (Hout a Ha)) as (_ & _ & Hfr). contradiction. }
+  rewrite Hnf. reflexivity.
+Qed.
+
+(* borrowing designs (also with the rebuilt Clone): insert a term, clone it out, drop the store, read the clone *)
+Example term_clone_escapes_refuted :
+  let w0 := run Rebuilt [New 0; Insert 0 7 0 false] in
+  exists s sl, find_store (live w0) 0 = Some s /\ nth_error (i2t s) 0 = Some sl
+    /\ read_term (fst (clone_term w0 sl)) (snd (clone_term w0 sl)) = ReadOk 7
+    /\ read_term (step Rebuilt (fst (clone_term w0 sl)) (Drop 0)) (snd (clone_term w0 sl)) = ReadFreed.
+Proof. eexists. eexists. vm_compute. repeat split; reflexivity. Qed.
+Example term_clone_owned_ok :
+  let w0 := run Owned [New 0; Insert 0 7 0 false] in
+  exists s sl, find_store (live w0) 0 = Some s /\ nth_error (i2t s) 0 = Some sl
+    /\ read_term (step Owned (fst (clone_term w0 sl)) (Drop 0)) (snd (clone_term w0 sl)) = ReadOk 7
+    /\ s_ptrs (snd (clone_term w0 sl)) = [2].
+Proof. eexists. eexists. vm_compute. repeat split; reflexivity. Qed.
